@@ -12,7 +12,8 @@
 (*   totals-differ:<key>, history-differs:<key> (order included),          *)
 (*   latest-inconsistent-with-history.                                     *)
 (* Which update was the latest one, and the active flag, are mechanism:    *)
-(* reported as drift.                                                      *)
+(* reported as drift.  A step with chk = FALSE (an entry point called from *)
+(* inside another one) is applied but compared only at the next step.      *)
 (***************************************************************************)
 EXTENDS Tracker, Json, IOUtils
 CONSTANT NTRACES
@@ -34,7 +35,7 @@ Judge(t, h, ob) ==
   ELSE ""
 TStep == /\ l <= Len(Tr.steps)
          /\ Apply
-         /\ bad' = IF bad # "" THEN bad ELSE Judge(tot', hist', Ev.obs)
+         /\ bad' = IF bad # "" \/ ~Ev.chk THEN bad ELSE Judge(tot', hist', Ev.obs)
          /\ drift' = (drift \/ Ev.obs.active # active' \/ \E k \in AllKeys : Ev.obs.latest[k] # latest'[k])
          /\ l' = l + 1 /\ UNCHANGED tid
 TDone == /\ l = Len(Tr.steps) + 1
